@@ -1,5 +1,5 @@
 //@ create src/cli/tests/verif_argv.rs
-//@ native verif_oracle_cli_flows "bounded stand-in / witness finder (C01, C02, C05, C07, C08, C13, C16): the built kestrel binary on the shipped two-key keyring: encrypt for every (from, to) in {alice, bob}^2 (incl. to self) with an empty, a 10-byte and a 70000-byte input, file length = 132 + 32 per chunk + plaintext, the same number of bytes and the magic when the ciphertext goes to standard output, decrypt as each key succeeds exactly for `to`, returns the input and names `from`, a failed decrypt leaves no output file and an existing one intact; with the last chunk of a two-chunk file corrupted the output holds exactly the first chunk and the exit status is 1; password mode round trip, rejection of a different password and of the password with a trailing space, tab or newline; extract-pub accepts the key's password and rejects it with a trailing newline / CR LF / space, a leading space, or one letter changed; change-pass (also to a password ending in a newline, and to the empty password) keeps the public key, makes the old password fail, draws a new salt also when the new password equals the old one; two identical encrypt invocations differ in their ephemeral key"
+//@ native verif_oracle_cli_flows "bounded stand-in / witness finder (C01, C02, C05, C07, C08, C13, C16): the built kestrel binary on the shipped two-key keyring: encrypt for every (from, to) in {alice, bob}^2 (incl. to self) with an empty, a 10-byte and a 70000-byte input, file length = 132 + 32 per chunk + plaintext, the same number of bytes and the magic when the ciphertext goes to standard output, decrypt as each key succeeds exactly for `to`, returns the input and names `from`, a failed decrypt leaves no output file and an existing one intact; with the last chunk of a two-chunk file corrupted the output holds exactly the first chunk and the exit status is 1; the same path as input and output is refused by all four file commands and the file stays intact; a key re-locked under the empty password encrypts and decrypts; password mode round trip (also with an unrelated KESTREL_NEW_PASSWORD exported), rejection of a different password and of the password with a trailing space, tab or newline; extract-pub accepts the key's password and rejects it with a trailing newline / CR LF / space, a leading space, or one letter changed; change-pass (also to a password ending in a newline, and to the empty password) keeps the public key, makes the old password fail, draws a new salt also when the new password equals the old one; two identical encrypt invocations differ in their ephemeral key"
 //@ native verif_oracle_argv_sweep "bounded stand-in / witness finder (C09, C13): the built kestrel binary (stdin closed, no controlling terminal, KESTREL_* unset, scratch working directory) on every argument vector of length <= 2 over 38 tokens (commands, options, aliases, paths of the shipped test keyring / data files, a missing path, an absent output path, empty and non-ASCII strings), every length-3 vector starting with a command word, and 7 complete command lines with each element in turn dropped, duplicated, or replaced by a missing path or one of 10 degenerate strings ('', '.', '..', '/', ...): exit status is 0 or 1, never a signal or panic text; status 1 carries an 'Error:' line; a failed run never leaves a file at the absent output path"
 // Native oracle on the REAL binary.  Never counted as proved; a disagreement is a concrete failing argument vector.
 use std::path::PathBuf;
@@ -166,6 +166,47 @@ fn verif_oracle_cli_flows() {
             fail(&mut bad, &mut first, format!("{} mode, last chunk of a two-chunk file corrupted: exit {:?}, output holds {} bytes, equal to the authenticated first chunk (65536 bytes): {}", mode, d.code, got.len(), got == big[..65536]));
         }
     }
+    // ---- C13 "bad arguments": the same path as input and output is refused by all four file commands, the file stays intact
+    {
+        let ct = p("same_k"); let pct = p("same_p");
+        let _ = verif_cmd(&dir, &["encrypt", &p("small"), "-t", "bob", "-f", "alice", "-o", &ct, "-k", &keyring, "--env-pass"], &[("KESTREL_PASSWORD", "alice")]);
+        let _ = verif_cmd(&dir, &["password", "encrypt", &p("small"), "-o", &pct, "--env-pass"], &[("KESTREL_PASSWORD", "pw")]);
+        let cases: Vec<(&str, Vec<String>, &str, String)> = vec![
+            ("decrypt", vec!["decrypt".into(), ct.clone(), "-t".into(), "bob".into(), "-o".into(), ct.clone(), "-k".into(), keyring.clone(), "--env-pass".into()], "bob", ct.clone()),
+            ("password decrypt", vec!["password".into(), "decrypt".into(), pct.clone(), "-o".into(), pct.clone(), "--env-pass".into()], "pw", pct.clone()),
+            ("encrypt", vec!["encrypt".into(), p("small"), "-t".into(), "bob".into(), "-f".into(), "alice".into(), "-o".into(), p("small"), "-k".into(), keyring.clone(), "--env-pass".into()], "alice", p("small")),
+            ("password encrypt", vec!["password".into(), "encrypt".into(), p("small"), "-o".into(), p("small"), "--env-pass".into()], "pw", p("small")),
+        ];
+        for (what, args, pw, path) in cases.iter() {
+            n += 1;
+            let before = std::fs::read(path).unwrap_or_default();
+            let a: Vec<&str> = args.iter().map(|x| x.as_str()).collect();
+            let r = verif_cmd(&dir, &a, &[("KESTREL_PASSWORD", pw)]);
+            let after = std::fs::read(path).unwrap_or_default();
+            if r.code != Some(1) || before != after { fail(&mut bad, &mut first, format!("`{}` with the same path as input and output: exit {:?}, file unchanged: {} ({} -> {} bytes)", what, r.code, before == after, before.len(), after.len())); }
+        }
+    }
+    // ---- C15 / C16: a key locked under the EMPTY password is a key like any other for encrypt / decrypt
+    {
+        n += 1;
+        let ring = std::fs::read_to_string(&keyring).unwrap();
+        let alice_sk = ring.lines().find(|l| l.starts_with("PrivateKey")).unwrap().split_once('=').unwrap().1.trim().to_string();
+        let c = verif_cmd(&dir, &["key", "change-pass", &alice_sk, "--env-pass"], &[("KESTREL_PASSWORD", "alice"), ("KESTREL_NEW_PASSWORD", "")]);
+        let newk = String::from_utf8_lossy(&c.out).lines().find(|l| l.starts_with("PrivateKey")).map(|l| l.split_once('=').unwrap().1.trim().to_string());
+        match newk {
+            None => fail(&mut bad, &mut first, format!("change-pass alice -> empty password: exit {:?} {}", c.code, c.err.trim())),
+            Some(k) => {
+                let ring2 = ring.replacen(&alice_sk, &k, 1);
+                let r2 = p("ring_empty"); std::fs::write(&r2, ring2).unwrap();
+                let ct = p("ct_empty"); let out = p("pt_empty");
+                let e = verif_cmd(&dir, &["encrypt", &p("small"), "-t", "alice", "-f", "alice", "-o", &ct, "-k", &r2, "--env-pass"], &[("KESTREL_PASSWORD", "")]);
+                let d = verif_cmd(&dir, &["decrypt", &ct, "-t", "alice", "-o", &out, "-k", &r2, "--env-pass"], &[("KESTREL_PASSWORD", "")]);
+                if e.code != Some(0) || d.code != Some(0) || std::fs::read(&out).unwrap_or_default() != small {
+                    fail(&mut bad, &mut first, format!("a key locked under the empty password: encrypt exit {:?} ({}), decrypt exit {:?} ({})", e.code, e.err.trim(), d.code, d.err.trim()));
+                }
+            }
+        }
+    }
     // ---- C07: two identical invocations never share the ephemeral key (file bytes 4..36)
     {
         n += 1;
@@ -197,6 +238,16 @@ fn verif_oracle_cli_flows() {
             } else if w != pw {
                 if d.code != Some(1) || got.is_some() { fail(&mut bad, &mut first, format!("file encrypted under password {:?} is accepted under the different password {:?} (exit {:?}, output file created: {})", pw, w, d.code, got.is_some())); }
             }
+        }
+    }
+    // ---- C02: the password of `password encrypt --env-pass` is KESTREL_PASSWORD, whatever else is exported
+    {
+        n += 1;
+        let ct = p("pct2"); let out = p("ppt2"); let _ = std::fs::remove_file(&ct); let _ = std::fs::remove_file(&out);
+        let e = verif_cmd(&dir, &["password", "encrypt", &p("small"), "-o", &ct, "--env-pass"], &[("KESTREL_PASSWORD", "the password"), ("KESTREL_NEW_PASSWORD", "another one")]);
+        let d = verif_cmd(&dir, &["password", "decrypt", &ct, "-o", &out, "--env-pass"], &[("KESTREL_PASSWORD", "the password")]);
+        if e.code != Some(0) || d.code != Some(0) || std::fs::read(&out).unwrap_or_default() != small {
+            fail(&mut bad, &mut first, format!("password encrypt with KESTREL_PASSWORD and an unrelated KESTREL_NEW_PASSWORD exported, then decrypt under KESTREL_PASSWORD: encrypt exit {:?}, decrypt exit {:?} ({})", e.code, d.code, d.err.trim()));
         }
     }
     // ---- change-pass (C16, C07)
